@@ -54,8 +54,8 @@ class Sched:
                 idle = 0
                 continue
             if not self.blocked:
-                if getattr(loop, "_scheduled", None):
-                    await asyncio.sleep(0.001)      # a timer is pending: the loop is not quiescent
+                if timer_due_soon(loop):
+                    await asyncio.sleep(0.001)      # a timer is about to fire: the loop is not quiescent
                     continue
                 idle += 1
                 if idle > 3 and quiescent_for_good(self):
@@ -183,9 +183,19 @@ async def run_scheduled(make_coros, choose, step_bound=100000):
     return results, sched, stray, stuck
 
 
+def timer_due_soon(loop, horizon=5.0):
+    """A pending timer that fires within `horizon` seconds can still wake the request; a housekeeping timer far in the future
+    (or a cancelled one left in the heap) must not postpone the 'stuck' verdict for ever."""
+    now = loop.time()
+    for h in getattr(loop, "_scheduled", None) or ():
+        if not getattr(h, "_cancelled", False) and getattr(h, "_when", now) - now <= horizon:
+            return True
+    return False
+
+
 def loop_busy():
     loop = asyncio.get_running_loop()
-    return bool(loop._ready) or bool(getattr(loop, "_scheduled", None))
+    return bool(loop._ready) or timer_due_soon(loop)
 
 
 async def collect_schedules(run_once, cap, rng, sample_tail=0):
